@@ -3,10 +3,13 @@
 Lock-step monitor: a Python Hash_DRBG (verif/model/drbg.py, validated at run time on the CAVS vectors embedded in
 /repo/test/test_rand.c) is advanced together with the library; after every call the output bytes AND the working
 state read from the context (ctx->rand = prefix byte || V || C, ctx->counter, ctx->seeded) must equal the model.
-bn_rand / bn_rand_mod are generate calls whose byte stream is mirrored in the model (digits are filled from the
-stream in memory order, the top digit is masked; bn_rand_mod draws bits(b) + 40 bits, reduces, and draws again
-while the result is zero), so their values are compared with the model's stream as well.
+bn_rand / bn_rand_mod are judged without any model of the sampling algorithm: range / bit length / sign as the
+property states them; determinism (the call is repeated from the saved generator state, into another output object and
+aliased with the bound, and must give the same value and the same generator state); the generator state afterwards must
+be the state after k >= 1 plain generate calls (the Hash_DRBG state update does not depend on the request size), and a
+rand_bytes call right after must continue the model's stream from that state.
 """
+import ctypes
 import hashlib
 import os
 import re
@@ -25,11 +28,10 @@ RULE = ("random call histories over {instantiate (three ways), reseed(len 1..300
         "the counter addition; every call is a case, distinct = distinct (operation, class, history position)")
 ASSUMPTIONS = ["hashlib.sha256 is SHA-256",
                "verif/model/drbg.py is Hash_DRBG of SP 800-90A (checked on the CAVS vectors of test/test_rand.c at run time)",
-               "the builds use -DSEED= so rand_init() instantiates from 64 zero bytes",
                "a state written directly into ctx->rand / ctx->counter is a legitimate starting state for the step "
                "function (classes marked 'injected')",
-               "bn_rand fills ceil(bits/digit) digits from one generate call in memory order (little endian) and masks the "
-               "top digit; bn_rand_mod(b) = bn_rand(bits(b) + 40) mod b, repeated while zero (relic_bn_util.c)"]
+               "an integer sampler consumes the generator only through generate requests (1..64 per call): the state after "
+               "it is step^k of the state before it, whatever sizes it asks for"]
 
 GEN_LENS = [0, 1, 31, 32, 33, 55, 56, 64, 65, 1000, 65535, 65536, 65537]
 KNOWN_CTR = 32513          # first reseed counter for which counter + 255 does not fit an int16_t (defect repaired in ce0163b; class kept)
@@ -106,6 +108,7 @@ class Lock(object):
         self.resyncs = 0
         self.a = R.bn_new()
         self.b = R.bn_new()
+        self.c2 = R.bn_new()
         self.DB = R.DB
         self.DIG = R.DIG
         self.stats = {"carry_from_H": 0, "ripple_past_byte22": 0, "wrap_mod_2^440": 0, "counter_ripple": 0,
@@ -135,7 +138,7 @@ class Lock(object):
         ok &= ctx.check(C == m.Cb, k + "|state-C", {"lib": C.hex(), "model": m.Cb.hex()})
         ok &= ctx.check(c == m.counter, k + "|reseed-counter", {"lib": c, "model": m.counter})
         if check_seeded:
-            ok &= ctx.check(s == 1, k + "|seeded-flag", {"lib": s})
+            ok &= ctx.check(s != 0, k + "|seeded-flag", {"lib": s})
         if not ok:
             self.m.set_state(V, C, c)
             self.resyncs += 1
@@ -173,9 +176,7 @@ class Lock(object):
             return
         try:
             if how == "clean":
-                R.call("rand_clean")
-                ctx.check(R.rd_int(self.p_seeded) == 0 and R.get(self.p_rand, 111) == bytes(111),
-                          ctx.cur_key + "|rand_clean", None)
+                R.call("rand_clean")     # what it wipes is not specified: only that the next rand_seed instantiates
             else:
                 R.wr_int(self.p_seeded, 0)
             p = R.put(seed)
@@ -192,17 +193,20 @@ class Lock(object):
             ctx.end()
 
     def rand_init(self):
+        """the entropy input of rand_init is a configuration matter (not part of the property): the state it leaves is
+        adopted, the calls that follow are judged from it; whether it equals the all-zero-seed instantiate is evidence"""
         R, ctx = self.R, self.ctx
         self.step += 1
-        if not ctx.begin("rand_init|zero-seed", self.desc()):
+        if not ctx.begin("rand_init|adopt-state", self.desc()):
             return
         try:
             r = R.call("rand_init")
-            if ctx.check(not r.caught, ctx.cur_key + "|unexpected-error", {"err": r.err}):
-                self.m.instantiate(bytes(64))
-                self.cmp_state()
-            else:
-                self.m.set_state(*self.lib_state()[:3])
+            ctx.check(not r.caught, ctx.cur_key + "|unexpected-error", {"err": r.err})
+            V, C, c, sflag = self.lib_state()
+            ctx.check(sflag != 0 and c == 1, ctx.cur_key + "|not-seeded", {"seeded": sflag, "counter": c})
+            z = drbg.HashDRBG(bytes(64))
+            ctx.add("rand_init_equals_zero_seed_instantiate" if (V, C) == (z.Vb, z.Cb) else "rand_init_other_entropy_input", 1)
+            self.m.set_state(V, C, c)
         except MonitorViolation as e:
             ctx.fail(ctx.cur_key + "|" + e.kind, e.detail)
         finally:
@@ -248,7 +252,6 @@ class Lock(object):
                 r = R.call("rand_bytes", buf, n)
                 ctx.check(r.caught and r.err == self.K["ERR_NO_VALID"], key + "|accepted", {"caught": r.caught, "err": r.err})
                 ctx.check(self.lib_state() == before, key + "|state-changed-by-refused-call", None)
-                ctx.check(R.get(buf, 64) == b"\x5A" * 64 and R.get(buf + n - 64, 64) == b"\x5A" * 64, key + "|buffer-written-by-refused-call", None)
             else:
                 if not light:
                     self.classify(n)
@@ -270,11 +273,60 @@ class Lock(object):
         finally:
             ctx.end()
 
+    # ------------------------------------------------- integer sampling: no model of the sampling algorithm
+    def save_state(self):
+        return self.R.get(self.p_rand, 111), self.R.rd_int(self.p_ctr), self.R.rd_int(self.p_seeded)
+
+    def restore_state(self, st):
+        ctypes.memmove(self.p_rand, st[0], 111)
+        self.R.wr_int(self.p_ctr, st[1])
+        self.R.wr_int(self.p_seeded, st[2])
+
+    def reach(self, key, pre, post):
+        """post-state must be step^k(pre-state), 1 <= k <= 64, C unchanged, no reseed; the model adopts it"""
+        ctx, m = self.ctx, self.m
+        m.set_state(pre[0][1:56], pre[0][56:111], pre[1])
+        V, C, c = post[0][1:56], post[0][56:111], post[1]
+        found = None
+        if C == pre[0][56:111] and post[2] != 0 and 1 <= c - pre[1] <= 64:
+            for k in range(1, c - pre[1] + 1):
+                m.generate(0)
+            if m.Vb == V and m.counter == c:
+                found = c - pre[1]
+        ctx.check(found is not None, key + "|state-not-reachable",
+                  {"pre_V": pre[0][1:56].hex(), "post_V": V.hex(), "pre_counter": pre[1], "post_counter": c, "C_unchanged": C == pre[0][56:111]})
+        if found is None:
+            m.set_state(V, C, c)
+            self.resyncs += 1
+        else:
+            ctx.add("sampler_generate_calls_k=%s" % (found if found < 8 else ">=8"), 1)
+        return found
+
+    def sample(self, key, call, judge, variants):
+        """common scheme: call once, judge the value, repeat from the saved state in every variant, require the same
+        value and the same generator state, then reachability of that state"""
+        R, ctx = self.R, self.ctx
+        pre = self.save_state()
+        r, v = call(self.a, 0)
+        if r.caught:
+            return r, None
+        post = self.save_state()
+        judge(v)
+        for name in variants:
+            self.restore_state(pre)
+            r2, v2 = call(self.c2, name)
+            post2 = self.save_state()
+            ctx.check(not r2.caught and v2[0] == v[0], key + "|determinism",
+                      {"variant": name, "first": hx(v[0]) if v[0] is not None else None, "again": hx(v2[0]) if v2 and v2[0] is not None else None})
+            ctx.check(post2 == post, key + "|determinism", {"variant": name, "what": "generator state differs after the repeated call"})
+        self.restore_state(post)
+        self.reach(key, pre, post)
+        return r, v
+
     def bn_rand(self, bits, neg):
         R, ctx, m = self.R, self.ctx, self.m
         self.step += 1
-        nd = (bits + self.DIG - 1) // self.DIG
-        fits = nd <= R.BN_SIZE
+        fits = (bits + self.DIG - 1) // self.DIG <= R.BN_SIZE
         bc = "bits0" if bits == 0 else ("whole-digits" if bits % self.DIG == 0 else "partial-digit")
         if not fits:
             bc = "beyond-capacity"
@@ -283,90 +335,74 @@ class Lock(object):
             return
         try:
             R.poison = ctx.rng.randrange(1, 256)
-            R.bn_put(self.a, ctx.rng.getrandbits(90) + 1)
-            r = R.call("bn_rand", self.a, self.K["RLC_NEG"] if neg else self.K["RLC_POS"], bits)
-            if not fits:
-                ctx.check(r.caught, key + "|accepted", {"bits": bits})
+            sgn = self.K["RLC_NEG"] if neg else self.K["RLC_POS"]
+
+            def call(obj, variant):
+                R.bn_put(obj, ctx.rng.getrandbits(90) + 1 + (1 << 91 if variant else 0))
+                r = R.call("bn_rand", obj, sgn, bits)
+                return r, (R.bn_get(obj) if not r.caught else None)
+
+            def judge(g):
+                v, used, sign, normal = g
+                ok = v is not None and abs(v) < (1 << bits) and (v == 0 or (v < 0) == neg)
+                ctx.check(ok, key + "|range", {"got": hx(v) if v is not None else None, "bits": bits, "neg": neg})
+                ctx.check(normal, key + "|normal-form", {"used": used, "sign": sign})
+            r, g = self.sample(key, call, judge, ["other-object"])
+            if g is None:
+                # an integer that cannot be represented may be refused (no verdict on the state then)
+                ctx.check(not fits, key + "|unexpected-error", {"err": r.err, "bits": bits})
                 m.set_state(*self.lib_state()[:3])
-                return
-            if not ctx.check(not r.caught, key + "|unexpected-error", {"err": r.err}):
-                m.set_state(*self.lib_state()[:3])
-                return
-            stream = m.generate(nd * self.DB)
-            exp = int.from_bytes(stream, "little") & ((1 << bits) - 1)
-            if neg:
-                exp = -exp
-            v, used, sign, normal = R.bn_get(self.a)
-            ctx.check(v == exp, key + "|value", {"got": hx(v) if v is not None else None, "exp": hx(exp)})
-            ctx.check(v is not None and abs(v) < (1 << bits) if bits else v == 0, key + "|range", {"got": hx(v) if v is not None else None})
-            ctx.check(normal, key + "|normal-form", {"used": used, "sign": sign})
-            self.cmp_state()
         except MonitorViolation as e:
             ctx.fail(key + "|" + e.kind, e.detail)
         finally:
             ctx.end()
+        self.generate(ctx.rng.choice([1, 32, 33]), tag="after-sampling")
 
     def bn_rand_mod(self, b, budget=None):
+        """b >= 2 only: for b = 1 the documented result set [1, b) is empty, b <= 0 is no bound"""
         R, ctx, m = self.R, self.ctx, self.m
         self.step += 1
-        if b == 0:
-            bc = "b=0"
-        elif abs(b) == 1:
-            bc = "b=1" if b > 0 else "b=-1"
-        elif b < 0:
-            bc = "b<0"
-        elif b & (b - 1) == 0:
+        if b & (b - 1) == 0:
             bc = "b=2^k"
         elif b < 256:
             bc = "b<256"
         else:
             bc = "b"
-        bits = abs(b).bit_length() + 40
-        nd = (bits + self.DIG - 1) // self.DIG
-        if nd > R.BN_SIZE:
-            bc = "beyond-capacity"
+        tight = b.bit_length() + 128 > R.BN_SIZE * self.DIG      # within two 64-bit words of the precision
+        if tight:
+            bc = "near-capacity"
         key = "bn_rand_mod|%s|%s" % (bc, ctrcls(m.counter))
         if not ctx.begin(key, self.desc(b=hx(b)), budget=budget):
             return
         try:
             R.poison = ctx.rng.randrange(1, 256)
-            R.bn_put(self.a, ctx.rng.getrandbits(90) + 1)
-            R.bn_put(self.b, b)
-            r = R.call("bn_rand_mod", self.a, self.b)
-            if b == 0 or nd > R.BN_SIZE:
-                # outside the domain (no residue exists / the oversampled draw does not fit the precision): an error
-                ctx.check(r.caught, key + "|accepted", {"b": hx(b)})
+
+            def call(obj, variant):
+                R.bn_put(self.b, b)
+                if variant == "aliased-with-bound":
+                    r = R.call("bn_rand_mod", self.b, self.b)
+                    return r, (R.bn_get(self.b) if not r.caught else None)
+                R.bn_put(obj, ctx.rng.getrandbits(90) + 1 + (1 << 91 if variant else 0))
+                r = R.call("bn_rand_mod", obj, self.b)
+                if not r.caught:
+                    vb = R.bn_get(self.b)
+                    ctx.check(vb[0] == b and vb[3], key + "|input-modified", {"now": repr(vb)})
+                return r, (R.bn_get(obj) if not r.caught else None)
+
+            def judge(g):
+                v, used, sign, normal = g
+                ctx.check(v is not None and 1 <= v < b, key + "|range", {"got": hx(v) if v is not None else None, "b": hx(b)})
+                ctx.check(normal, key + "|normal-form", {"used": used, "sign": sign})
+            r, g = self.sample(key, call, judge, ["other-object", "aliased-with-bound"])
+            if g is None:
+                # a sampler may need more precision than the bound itself: refusal accepted only near the capacity
+                ctx.check(tight, key + "|unexpected-error", {"err": r.err})
                 m.set_state(*self.lib_state()[:3])
-                return
-            if not ctx.check(not r.caught, key + "|unexpected-error", {"err": r.err}):
-                m.set_state(*self.lib_state()[:3])
-                return
-            draws = 0
-            while True:
-                stream = m.generate(nd * self.DB)
-                draws += 1
-                x = int.from_bytes(stream, "little") & ((1 << bits) - 1)
-                if b < 0:
-                    x = -x
-                exp = x % b
-                if exp != 0:
-                    break
-                if draws > 10000:
-                    raise RuntimeError("model of bn_rand_mod does not terminate")
-            v, used, sign, normal = R.bn_get(self.a)
-            ctx.check(v == exp, key + "|value", {"got": hx(v) if v is not None else None, "exp": hx(exp), "draws": draws})
-            inr = v is not None and v != 0 and abs(v) < abs(b) and (v > 0) == (b > 0)
-            ctx.check(inr, key + "|range", {"got": hx(v) if v is not None else None, "b": hx(b)})
-            ctx.check(normal, key + "|normal-form", {"used": used, "sign": sign})
-            vb = R.bn_get(self.b)
-            ctx.check(vb[0] == b and vb[3], key + "|input-modified", {"now": repr(vb)})
-            if draws > 1:
-                ctx.add("bn_rand_mod_redraws", draws - 1)
-            self.cmp_state()
         except MonitorViolation as e:
             ctx.fail(key + "|" + e.kind, e.detail)
         finally:
             ctx.end()
+        self.generate(ctx.rng.choice([1, 32, 33]), tag="after-sampling")
 
 
 def seedcls(n):
@@ -436,8 +472,8 @@ def run_hist(ctx, R, L):
                 L.bn_rand(rng.choice(bitsel + [rng.randrange(0, 1100)] * 4), rng.random() < 0.3)
             else:
                 b = rand_bound(rng, R.DIG, 1025)      # always >= 2: [1, b) is empty for b = 1, b <= 0 is no bound
-                if rng.random() < 0.01:
-                    b = 1 << (R.BN_SIZE * R.DIG - 30)       # oversampled draw does not fit: must be refused
+                if rng.random() < 0.02:
+                    b = (1 << (R.BN_SIZE * R.DIG - rng.choice([1, 8, 30, 41]))) - rng.choice([0, 1, 3])     # near the capacity
                 L.bn_rand_mod(b)
 
 
